@@ -131,11 +131,13 @@ def tee_bytes(sym, fmt, N, ragged, kind):
             kw = dict(encoding=enc, write_header=wh)
             if fmt == 'csv' and sym.flag('dialect'):
                 kw.update(delimiter=';', quotechar="'")
-            list(tee(table, a, **kw))
+            teeview = tee(table, a, **kw)
+            list(teeview)
             to(table, b, **kw)
         elif fmt == 'pickle':
             wh = sym.flag('write_header')
-            list(petl.teepickle(table, a, write_header=wh))
+            teeview = petl.teepickle(table, a, write_header=wh)
+            list(teeview)
             petl.topickle(table, b, write_header=wh)
         elif fmt == 'text':
             kw = dict(template='{f}:{g}\n', encoding=sym.pick('encoding', ['utf-8', 'utf-16']))
@@ -143,7 +145,8 @@ def tee_bytes(sym, fmt, N, ragged, kind):
                 kw['prologue'] = 'BEGIN\n'
             if sym.flag('epilogue'):
                 kw['epilogue'] = 'END\n'
-            list(petl.teetext(table, a, **kw))
+            teeview = petl.teetext(table, a, **kw)
+            list(teeview)
             petl.totext(table, b, **kw)
         elif fmt == 'html':
             kw = dict(encoding=sym.pick('encoding', ['utf-8', 'latin-1']))
@@ -153,11 +156,14 @@ def tee_bytes(sym, fmt, N, ragged, kind):
                 kw['vrepr'] = repr
             if sym.flag('lineterminator'):
                 kw['lineterminator'] = '\r\n'
-            list(petl.teehtml(table, a, **kw))
+            teeview = petl.teehtml(table, a, **kw)
+            list(teeview)
             petl.tohtml(table, b, **kw)
         else:
             raise ValueError(fmt)
         check(raw(a) == raw(b), 'tee target differs from what to* writes', fmt, raw(a), raw(b))
+        list(teeview)          # a second full pass rewrites the target with the same bytes
+        check(raw(a) == raw(b), 'tee target differs from what to* writes after a second pass', fmt, raw(a), raw(b))
 
 
 # --------------------------------------------------------------------------
